@@ -38,7 +38,35 @@ def dig(s):
 # arguments alone).  The step lists are SHARED between calls, as a caller's configuration object is.
 PRISTINE = {2: ["all_whitespace"], 3: ["html", "inline_whitespace"], 4: ["inline_whitespace"]}
 SHARED = {k: list(v) for k, v in PRISTINE.items()}
-NOPTS = 5
+NOPTS = 6       # 5: tokenizer=HyperscanTokenizer -- one instance PER THREAD, reused by all calls of that thread (the property
+                # promises thread-safety for the shared DEFAULT tokenizer only; a Hyperscan scratch space is single-threaded)
+_HS = threading.local()
+
+
+def hs_tok():
+    if not hasattr(_HS, "t"):
+        import os
+        import tempfile
+        from eyecite.tokenizers import HyperscanTokenizer
+        _HS.t = HyperscanTokenizer(cache_dir=os.environ.get("VERIF_HS_CACHE") or tempfile.mkdtemp(prefix="hs"))
+    return _HS.t
+
+
+def other_job(k, text):
+    """what ANOTHER user of the library may do in the same process between two calls (stuttering steps of Purity.tla:
+    they touch none of its variables): build a tokenizer over a filtered / reordered / partial extractor list -- the
+    extractor objects are the module-level ones the default tokenizer shares -- and tokenize with it"""
+    from eyecite.tokenizers import EXTRACTORS, AhocorasickTokenizer, Tokenizer
+    if k % 3 == 0:
+        tk = AhocorasickTokenizer([e for e in EXTRACTORS if not e.extra.get("short")])
+    elif k % 3 == 1:
+        tk = AhocorasickTokenizer(list(reversed(EXTRACTORS)))
+    else:
+        tk = Tokenizer(extractors=EXTRACTORS[-5:] + EXTRACTORS[:200:7])
+    try:
+        tk.tokenize(text)
+    except Exception:  # noqa: BLE001 - judged elsewhere (C04)
+        pass
 
 
 def inputs_intact():
@@ -50,6 +78,8 @@ def call(text, opt):
     try:
         if opt in (0, 1):
             r = get_citations(text, remove_ambiguous=bool(opt))
+        elif opt == 5:
+            r = get_citations(text, tokenizer=hs_tok())
         elif opt == 2:
             r = get_citations(text, clean_steps=SHARED[2])
         else:
@@ -99,6 +129,8 @@ def run_histories(payload):
         for ev, th, T in it["hist"]:
             ti = it["bind"][T]
             if ev == "call":
+                if it.get("other"):
+                    other_job(ti + len(calls), texts[ti])
                 before = texts[ti]
                 workers[th].q.put((texts[ti], it["opt"]))
                 open_call[th] = {"text": ti, "opt": it["opt"], "th": th, "same_input": True, "_before": before}
